@@ -267,7 +267,13 @@ func (l *lexer) acceptWS() {
 		l.backup()
 
 		if strings.HasPrefix(l.input[l.pos:], str_comment_start) {
+			// the two characters that open the comment cannot be part of what closes it
+			l.pos += len(str_comment_start)
 			for {
+				if strings.HasPrefix(l.input[l.pos:], str_comment_end) {
+					l.pos += len(str_comment_end)
+					break
+				}
 				var r = l.next()
 				if strings.HasPrefix(l.input[l.pos:], str_comment_end) {
 					l.pos += len(str_comment_end)
